@@ -1,142 +1,287 @@
 /-
 C19 — one replication round makes a secondary datacenter equal to the primary.
 Property theorems only; helper lemmas live in CV/Proofs/Repl.lean.
+
+The round is the one the Go code performs (`CV.Repl.roundOps` / `roundFinal`): effective last
+index (reset when the remote index moved backwards), the merge walk, exported-services left out,
+ALL deletion batches and THEN the upsert batches, executed on a store whose rows are keyed by the
+FOLDED key (lower-cased kind/name, parsed UUID) while the walk compares keys exactly.
 -/
 import CV.Proofs.Repl
 set_option linter.unusedSectionVars false
 namespace CV.Repl
 variable {κ η : Type} [DecidableEq κ]
 
-/-- What the secondary may assume about the remote list and the last index it replicated:
-    hashes are faithful (`same` ⇒ equal content; collision-freeness of the hash is trusted) and
-    whatever the primary changed at or below `last` has already been applied locally. -/
-structure RoundOK (c : Cfg κ η) (last : Nat) (l r : List (Item κ η)) : Prop where
-  law   : Lawful c
-  ul    : UniqueKeys c l
-  ur    : UniqueKeys c r
-  hash  : ∀ y ∈ l, ∀ x ∈ r, y.id = x.id → c.same x.hash y.hash = true → y.val = x.val
+/-- What the secondary may assume about the two lists and the (effective) last index:
+    both lists come out of a state store (folded keys unique; `fold` does not mix skipped /
+    never-replicated keys with others), hashes are faithful (`same` ⇒ equal content;
+    collision-freeness of the hash is trusted) and whatever the primary changed at or below `last`
+    has already been applied locally. -/
+structure RoundOK (R : Rnd κ η) (last : Nat) (l r : List (Item κ η)) : Prop where
+  law   : Lawful R.cfg
+  fl    : FoldUnique R l
+  fr    : FoldUnique R r
+  cls   : ∀ a ∈ l ++ r, ∀ b ∈ l ++ r, R.fold a.id = R.fold b.id →
+            R.cfg.skip a.id = R.cfg.skip b.id ∧ R.noRepl a.id = R.noRepl b.id
+  hash  : ∀ y ∈ l, ∀ x ∈ r, y.id = x.id → R.cfg.same x.hash y.hash = true → y.val = x.val
   cons  : ∀ y ∈ l, ∀ x ∈ r, y.id = x.id → x.mod ≤ last → y.val = x.val
 
-/-- After the round, every replicated (non-skipped) key holds exactly the primary's content
-    — present iff present remotely, with the remote value. For all lists, in any input order. -/
-theorem round_correct (c : Cfg κ η) (last : Nat) (l r : List (Item κ η)) (h : RoundOK c last l r)
-    (k : κ) (hk : c.skip k = false) : valOf (round c last l r) k = valOf r k := by
-  have hsl := sortBy_sorted c h.law l h.ul
-  have hsr := sortBy_sorted c h.law r h.ur
-  have hd := mem_dels c h.law last _ _ hsl hsr k
-  have hu := mem_ups c h.law last _ _ hsl hsr k
-  simp only [mem_sortBy] at hd hu
-  unfold round
-  generalize diff c last (sortBy c.lt l) (sortBy c.lt r) = du at *
-  obtain ⟨d, u⟩ := du
-  simp only at hd hu ⊢
-  rw [valOf_applyDiff]
-  by_cases hku : k ∈ u
-  · simp [hku]
-  · simp only [hku, if_false]
-    by_cases hkd : k ∈ d
-    · simp only [hkd, if_true]
-      exact (valOf_absent r k (hd.mp hkd).2.2).symm
-    · simp only [hkd, if_false]
-      by_cases hl : ∃ y ∈ l, y.id = k
-      · obtain ⟨y, hy, hyk⟩ := hl
-        have hr : ∃ x ∈ r, x.id = k := by
-          apply Classical.byContradiction; intro hr
-          exact hkd (hd.mpr ⟨hk, ⟨y, hy, hyk⟩, hr⟩)
-        obtain ⟨x, hx, hxk⟩ := hr
-        subst hyk
-        have e1 := valOf_mem c l h.ul y hy hk
-        have e2 := valOf_mem c r h.ur x hx (by rw [hxk]; exact hk)
-        rw [hxk] at e2
-        rw [e1, e2]
-        congr 1
-        by_cases hm : x.mod ≤ last
-        · exact h.cons y hy x hx hxk.symm hm
-        · apply h.hash y hy x hx hxk.symm
-          cases hs : c.same x.hash y.hash with
-          | true => rfl
-          | false =>
-            exact absurd (hu.mpr ⟨hk, x, hx, hxk, Or.inr ⟨y, hy, rfl, by omega, hs⟩⟩) hku
-      · rw [valOf_absent l k hl]
-        have hr : ¬ ∃ x ∈ r, x.id = k := by
-          intro ⟨x, hx, hxk⟩
-          exact hku (hu.mpr ⟨hk, x, hx, hxk, Or.inl hl⟩)
-        exact (valOf_absent r k hr).symm
+/-- After the round as coded (deletions, then upserts, on the fold-keyed store), every replicated
+    key holds exactly the primary's content — present iff present remotely, under the primary's
+    exact spelling, with the remote value. For all lists, in any input order, including renames
+    that only change the letter case (the deleted and the upserted key then fold onto one row). -/
+theorem round_correct (R : Rnd κ η) (last ridx : Nat) (l r : List (Item κ η))
+    (h : RoundOK R (effLast last ridx) l r) (k : κ) (hk : R.cfg.skip k = false) (hn : R.noRepl k = false) :
+    valOf (roundFinal R last ridx l r) k = valOf r k := by
+  rw [roundFinal_afterWrites]
+  have hP := roundUps_pairwise R h.law last ridx l r h.fl h.fr
+  have hD := mem_roundDels R h.law last ridx l r h.fl h.fr
+  have hU := mem_roundUps R last ridx l r
+  have hu := fun k => mem_ups R.cfg h.law (effLast last ridx) _ _ (sortBy_sorted R.cfg h.law l h.fl.unique)
+    (sortBy_sorted R.cfg h.law r h.fr.unique) k
+  simp only [mem_sortBy] at hu
+  by_cases hx : ∃ x ∈ r, x.id = k
+  · obtain ⟨x, hxr, hxk⟩ := hx
+    have hkx : R.cfg.skip x.id = false := by rw [hxk]; exact hk
+    have e2 : valOf r k = some x.val := by
+      rw [← hxk]; exact valOf_mem R.cfg r h.fr.unique x hxr hkx
+    by_cases hxu : x ∈ roundUps R last ridx l r
+    · rw [e2, ← hxk]; exact valOf_afterWrites_ups _ _ _ _ hP x hxu
+    · have hku : k ∉ (diff R.cfg (effLast last ridx) (sortBy R.cfg.lt l) (sortBy R.cfg.lt r)).2 :=
+        fun hku => hxu ((hU x).mpr ⟨hxr, by rw [hxk]; exact hn, by rw [hxk]; exact hku⟩)
+      have hl : ∃ y ∈ l, y.id = k := by
+        apply Classical.byContradiction; intro hl
+        exact hku ((hu k).mpr ⟨hk, x, hxr, hxk, Or.inl hl⟩)
+      obtain ⟨y, hyl, hyk⟩ := hl
+      have hky : R.cfg.skip y.id = false := by rw [hyk]; exact hk
+      have hkept : valOf (afterWrites R.fold l (roundDels R last ridx l r) (roundUps R last ridx l r)) k
+          = valOf l k := by
+        apply valOf_afterWrites_kept _ _ _ _ hP
+        · intro k' hk' e
+          obtain ⟨_, _, ⟨y', hy'l, hy'k⟩, hnr⟩ := (hD k').mp hk'
+          have : y = y' := h.fl.inj y hyl y' hy'l (by rw [hyk, hy'k]; exact e) hky
+          exact hnr ⟨x, hxr, by rw [hxk, ← hyk, this, hy'k]⟩
+        · intro u' hu' e
+          have hu'r := ((hU u').mp hu').1
+          have : x = u' := h.fr.inj x hxr u' hu'r (by rw [hxk]; exact e) hkx
+          exact hxu (this ▸ hu')
+      rw [hkept, e2, ← hyk, valOf_mem R.cfg l h.fl.unique y hyl hky]
+      congr 1
+      by_cases hm : x.mod ≤ effLast last ridx
+      · exact h.cons y hyl x hxr (by rw [hyk, hxk]) hm
+      · apply h.hash y hyl x hxr (by rw [hyk, hxk])
+        cases hs : R.cfg.same x.hash y.hash with
+        | true => rfl
+        | false => exact absurd ((hu k).mpr ⟨hk, x, hxr, hxk, Or.inr ⟨y, hyl, hyk, by omega, hs⟩⟩) hku
+  · rw [valOf_absent r k hx]
+    have hnu : ¬ ∃ u ∈ roundUps R last ridx l r, u.id = k := by
+      rintro ⟨u, hu', e⟩; exact hx ⟨u, ((hU u).mp hu').1, e⟩
+    by_cases hl : ∃ y ∈ l, y.id = k
+    · exact valOf_afterWrites_gone _ _ _ _ hP k hnu (Or.inl ⟨k, (hD k).mpr ⟨hk, hn, hl, hx⟩, rfl⟩)
+    · by_cases hg : (∃ k' ∈ roundDels R last ridx l r, R.fold k = R.fold k') ∨
+          ∃ u ∈ roundUps R last ridx l r, R.fold k = R.fold u.id
+      · exact valOf_afterWrites_gone _ _ _ _ hP k hnu hg
+      · rw [valOf_afterWrites_kept _ _ _ _ hP k (fun k' hk' e => hg (Or.inl ⟨k', hk', e⟩))
+          (fun u hu' e => hg (Or.inr ⟨u, hu', e⟩))]
+        exact valOf_absent l k hl
 
-/-- Local-only objects (skipped keys: empty IDs / unmigrated tokens) survive the round untouched,
-    and no skipped remote object is ever written locally. -/
-theorem local_only_untouched (c : Cfg κ η) (last : Nat) (l r : List (Item κ η)) (h : RoundOK c last l r)
-    (z : Item κ η) (hz : c.skip z.id = true) : z ∈ round c last l r ↔ z ∈ l := by
-  have hsl := sortBy_sorted c h.law l h.ul
-  have hsr := sortBy_sorted c h.law r h.ur
-  have hd := mem_dels c h.law last _ _ hsl hsr z.id
-  have hu := mem_ups c h.law last _ _ hsl hsr z.id
-  unfold round
-  generalize diff c last (sortBy c.lt l) (sortBy c.lt r) = du at *
-  obtain ⟨d, u⟩ := du
-  simp only [applyDiff, List.mem_append, List.mem_filter] at *
-  grind
+/-- Local-only objects — skipped keys (empty IDs / unmigrated tokens) and never-replicated keys
+    (exported-services entries) — survive the round untouched, and no such remote object is ever
+    written locally. -/
+theorem local_only_untouched (R : Rnd κ η) (last ridx : Nat) (l r : List (Item κ η))
+    (h : RoundOK R (effLast last ridx) l r) (z : Item κ η)
+    (hz : R.cfg.skip z.id = true ∨ R.noRepl z.id = true) :
+    z ∈ roundFinal R last ridx l r ↔ z ∈ l := by
+  rw [roundFinal_afterWrites]
+  have hP := roundUps_pairwise R h.law last ridx l r h.fl h.fr
+  have hD := mem_roundDels R h.law last ridx l r h.fl h.fr
+  have hU := mem_roundUps R last ridx l r
+  have hu := fun k => mem_ups R.cfg h.law (effLast last ridx) _ _ (sortBy_sorted R.cfg h.law l h.fl.unique)
+    (sortBy_sorted R.cfg h.law r h.fr.unique) k
+  simp only [mem_sortBy] at hu
+  rw [mem_afterWrites _ _ _ _ hP]
+  -- nothing that is upserted is skipped or never-replicated
+  have hcl : ∀ u ∈ roundUps R last ridx l r, u ∈ r ∧ R.cfg.skip u.id = false ∧ R.noRepl u.id = false := by
+    intro u hu'
+    obtain ⟨h1, h2, h3⟩ := (hU u).mp hu'
+    exact ⟨h1, ((hu u.id).mp h3).1, h2⟩
+  constructor
+  · rintro (⟨hzl, _, _⟩ | hzu)
+    · exact hzl
+    · obtain ⟨_, h2, h3⟩ := hcl z hzu
+      rcases hz with hz | hz
+      · rw [hz] at h2; cases h2
+      · rw [hz] at h3; cases h3
+  · intro hzl
+    left
+    refine ⟨hzl, ?_, ?_⟩
+    · intro k hk e
+      obtain ⟨hs, hnr, ⟨y, hyl, hyk⟩, _⟩ := (hD k).mp hk
+      have := h.cls z (List.mem_append_left _ hzl) y (List.mem_append_left _ hyl) (by rw [hyk]; exact e)
+      rw [hyk, hs, hnr] at this
+      rcases hz with hz | hz
+      · rw [hz] at this; cases this.1
+      · rw [hz] at this; cases this.2
+    · intro u hu' e
+      obtain ⟨hur, hs, hnr⟩ := hcl u hu'
+      have := h.cls z (List.mem_append_left _ hzl) u (List.mem_append_right _ hur) e
+      rw [hs, hnr] at this
+      rcases hz with hz | hz
+      · rw [hz] at this; cases this.1
+      · rw [hz] at this; cases this.2
 
-/-- Deletions and upserts are disjoint, deletions name local objects only and upserts remote ones. -/
-theorem diff_disjoint (c : Cfg κ η) (last : Nat) (l r : List (Item κ η)) (h : RoundOK c last l r) (k : κ) :
-    let du := diff c last (sortBy c.lt l) (sortBy c.lt r)
+/-- Deletions and upserts of the walk are disjoint, deletions name local objects only and upserts
+    remote ones. -/
+theorem diff_disjoint (R : Rnd κ η) (last : Nat) (l r : List (Item κ η)) (h : RoundOK R last l r) (k : κ) :
+    let du := diff R.cfg last (sortBy R.cfg.lt l) (sortBy R.cfg.lt r)
     (k ∈ du.1 → k ∉ du.2 ∧ ∃ y ∈ l, y.id = k) ∧ (k ∈ du.2 → ∃ x ∈ r, x.id = k) := by
-  have hsl := sortBy_sorted c h.law l h.ul
-  have hsr := sortBy_sorted c h.law r h.ur
-  have hd := mem_dels c h.law last _ _ hsl hsr k
-  have hu := mem_ups c h.law last _ _ hsl hsr k
+  have hsl := sortBy_sorted R.cfg h.law l h.fl.unique
+  have hsr := sortBy_sorted R.cfg h.law r h.fr.unique
+  have hd := mem_dels R.cfg h.law last _ _ hsl hsr k
+  have hu := mem_ups R.cfg h.law last _ _ hsl hsr k
   simp only [mem_sortBy] at hd hu
   grind
 
-/-- A secondary that already equals the primary (same keys, agreeing hashes) produces no writes. -/
-theorem no_writes_when_equal (c : Cfg κ η) (last : Nat) (l r : List (Item κ η)) (h : RoundOK c last l r)
-    (hlr : ∀ y ∈ l, c.skip y.id = false → ∃ x ∈ r, x.id = y.id ∧ c.same x.hash y.hash = true)
-    (hrl : ∀ x ∈ r, c.skip x.id = false → ∃ y ∈ l, y.id = x.id) :
-    diff c last (sortBy c.lt l) (sortBy c.lt r) = ([], []) := by
-  have hsl := sortBy_sorted c h.law l h.ul
-  have hsr := sortBy_sorted c h.law r h.ur
-  have hd := fun k => mem_dels c h.law last _ _ hsl hsr k
-  have hu := fun k => mem_ups c h.law last _ _ hsl hsr k
-  simp only [mem_sortBy] at hd hu
-  have hur := h.ur
-  have hul := h.ul
-  generalize diff c last (sortBy c.lt l) (sortBy c.lt r) = du at *
-  obtain ⟨d, u⟩ := du
-  simp only at hd hu
-  have hd0 : d = [] := by
+/-- A secondary whose replicated part already equals the primary's (same keys, agreeing hashes)
+    produces no Raft apply at all, and its store is unchanged. -/
+theorem no_writes_when_equal (R : Rnd κ η) (last ridx : Nat) (l r : List (Item κ η))
+    (h : RoundOK R (effLast last ridx) l r)
+    (hlr : ∀ y ∈ l, R.cfg.skip y.id = false → R.noRepl y.id = false →
+             ∃ x ∈ r, x.id = y.id ∧ R.cfg.same x.hash y.hash = true)
+    (hrl : ∀ x ∈ r, R.cfg.skip x.id = false → R.noRepl x.id = false → ∃ y ∈ l, y.id = x.id) :
+    roundOps R last ridx l r = [] ∧ roundFinal R last ridx l r = l := by
+  have hD := mem_roundDels R h.law last ridx l r h.fl h.fr
+  have hU := mem_roundUps R last ridx l r
+  have hu := fun k => mem_ups R.cfg h.law (effLast last ridx) _ _ (sortBy_sorted R.cfg h.law l h.fl.unique)
+    (sortBy_sorted R.cfg h.law r h.fr.unique) k
+  simp only [mem_sortBy] at hu
+  have hd0 : roundDels R last ridx l r = [] := by
     apply List.eq_nil_iff_forall_not_mem.mpr; intro k hk
-    have := (hd k).mp hk
-    grind
-  have hu0 : u = [] := by
-    apply List.eq_nil_iff_forall_not_mem.mpr; intro k hk
-    obtain ⟨hs, x, hx, hxk, hcase⟩ := (hu k).mp hk
+    obtain ⟨hs, hnr, ⟨y, hyl, hyk⟩, hno⟩ := (hD k).mp hk
+    obtain ⟨x, hxr, hxy, _⟩ := hlr y hyl (by rw [hyk]; exact hs) (by rw [hyk]; exact hnr)
+    exact hno ⟨x, hxr, by rw [hxy, hyk]⟩
+  have hu0 : roundUps R last ridx l r = [] := by
+    apply List.eq_nil_iff_forall_not_mem.mpr; intro x hxu
+    obtain ⟨hxr, hnr, hmem⟩ := (hU x).mp hxu
+    obtain ⟨hs, x', hx', hx'k, hcase⟩ := (hu x.id).mp hmem
+    have hxx : x' = x := h.fr.inj x' hx' x hxr (by rw [hx'k]) (by rw [hx'k]; exact hs)
+    subst hxx
     rcases hcase with hno | ⟨y, hy, hyk, _, hsame⟩
-    · obtain ⟨y, hy, hyx⟩ := hrl x hx (by rw [hxk]; exact hs)
-      exact hno ⟨y, hy, by rw [hyx, hxk]⟩
-    · obtain ⟨x', hx', hx'y, hs'⟩ := hlr y hy (by rw [hyk]; exact hs)
-      -- x' and x carry the same non-skipped key, hence are the same remote item
-      have e1 := find_unique c r hur x hx (by rw [hxk]; exact hs)
-      have e2 := find_unique c r hur x' hx' (by rw [hx'y, hyk]; exact hs)
-      have : x'.id = x.id := by rw [hx'y, hyk, hxk]
-      rw [this] at e2
-      have : x' = x := by rw [e1] at e2; exact (Option.some.inj e2).symm
+    · obtain ⟨y, hy, hyx⟩ := hrl x' hxr hs hnr
+      exact hno ⟨y, hy, hyx⟩
+    · obtain ⟨x'', hx'', hx''y, hs'⟩ := hlr y hy (by rw [hyk]; exact hs) (by rw [hyk]; exact hnr)
+      have : x'' = x' := h.fr.inj x'' hx'' x' hxr (by rw [hx''y, hyk]) (by rw [hx''y, hyk]; exact hs)
       subst this
       rw [hs'] at hsame; cases hsame
-  rw [hd0, hu0]
+  have hops : roundOps R last ridx l r = [] := by
+    unfold roundOps; rw [hd0, hu0]; simp [batches_nil]
+  refine ⟨hops, ?_⟩
+  unfold roundFinal; rw [hops]; rfl
 
 /-- The result does not depend on the order in which the two lists are handed in. -/
-theorem round_input_order_irrelevant (c : Cfg κ η) (last : Nat) (l l' r r' : List (Item κ η))
-    (h : RoundOK c last l r) (h' : RoundOK c last l' r')
-    (_hl : ∀ x, x ∈ l ↔ x ∈ l') (hr : ∀ x, x ∈ r ↔ x ∈ r') (k : κ) (hk : c.skip k = false) :
-    valOf (round c last l r) k = valOf (round c last l' r') k := by
-  rw [round_correct c last l r h k hk, round_correct c last l' r' h' k hk]
+theorem round_input_order_irrelevant (R : Rnd κ η) (last ridx : Nat) (l l' r r' : List (Item κ η))
+    (h : RoundOK R (effLast last ridx) l r) (h' : RoundOK R (effLast last ridx) l' r')
+    (_hl : ∀ x, x ∈ l ↔ x ∈ l') (hr : ∀ x, x ∈ r ↔ x ∈ r') (k : κ)
+    (hk : R.cfg.skip k = false) (hn : R.noRepl k = false) :
+    valOf (roundFinal R last ridx l r) k = valOf (roundFinal R last ridx l' r') k := by
+  rw [round_correct R last ridx l r h k hk hn, round_correct R last ridx l' r' h' k hk hn]
   by_cases hx : ∃ x ∈ r, x.id = k
   · obtain ⟨x, hx, hxk⟩ := hx
     subst hxk
-    rw [valOf_mem c r h.ur x hx hk, valOf_mem c r' h'.ur x ((hr x).mp hx) hk]
+    rw [valOf_mem R.cfg r h.fr.unique x hx hk, valOf_mem R.cfg r' h'.fr.unique x ((hr x).mp hx) hk]
   · rw [valOf_absent r k hx, valOf_absent r' k (by intro ⟨x, hx', e⟩; exact hx ⟨x, (hr x).mpr hx', e⟩)]
 
-/-! ### the two instances used by consul are lawful -/
+/-! ### the writes of a round: order, batching, store invariant -/
+
+/-- The Raft applies of a round are: the deletion batches, then the upsert batches; batching
+    neither drops, duplicates nor reorders an element, and no batch is empty (so the number of
+    applies is the number of batches). -/
+theorem round_writes_shape (R : Rnd κ η) (last ridx : Nat) (l r : List (Item κ η))
+    (hdb : 0 < R.delBatch) (hub : 0 < R.upsLimit) :
+    ∃ (ds : List (List κ)) (us : List (List (Item κ η))),
+      roundOps R last ridx l r = ds.map Op.del ++ us.map Op.ups ∧
+      ds.flatten = roundDels R last ridx l r ∧ us.flatten = roundUps R last ridx l r ∧
+      (∀ b ∈ ds, b ≠ []) ∧ (∀ b ∈ us, b ≠ []) :=
+  ⟨_, _, rfl, batches_flatten _ _ _, batches_flatten _ _ _,
+    batchesGo_nonempty _ _ hdb [] 0 _ (fun _ => rfl), batchesGo_nonempty _ _ hub [] 0 _ (fun _ => rfl)⟩
+
+/-- The secondary's table is again a legal store table after the round (folded keys unique). -/
+theorem final_foldUnique (R : Rnd κ η) (last ridx : Nat) (l r : List (Item κ η))
+    (h : RoundOK R (effLast last ridx) l r) : FoldUnique R (roundFinal R last ridx l r) := by
+  rw [roundFinal_afterWrites]
+  have hP := roundUps_pairwise R h.law last ridx l r h.fl h.fr
+  rw [afterWrites_form _ _ _ _ hP]
+  unfold FoldUnique
+  apply List.pairwise_append.mpr
+  refine ⟨List.Pairwise.filter _ (List.Pairwise.filter _ h.fl), ?_, ?_⟩
+  · exact List.Pairwise.imp (fun hab => Or.inl hab) hP
+  · intro a ha b hb
+    simp only [List.mem_filter, Bool.not_eq_true', List.contains_eq_mem, List.mem_map,
+      decide_eq_false_iff_not, not_exists, not_and] at ha
+    left
+    intro e
+    exact ha.2 b hb e.symm
+
+/-! ### around the walk: index reset, returned index, what the next round may assume -/
+
+/-- `remoteIndex < lastRemoteIndex ⇒ lastRemoteIndex = 0`: the round then is the full-sync round. -/
+theorem reset_is_full_sync (R : Rnd κ η) (last ridx : Nat) (l r : List (Item κ η)) (hb : ridx < last) :
+    roundOps R last ridx l r = roundOps R 0 ridx l r ∧ roundFinal R last ridx l r = roundFinal R 0 ridx l r := by
+  have e : effLast last ridx = 0 := by simp [effLast, hb]
+  have e0 : effLast 0 ridx = 0 := by simp [effLast]
+  unfold roundFinal roundOps roundDels roundUps
+  rw [e, e0]
+  exact ⟨rfl, rfl⟩
+
+/-- … and when the remote index did not move backwards the last index is used as it is. -/
+theorem no_reset (last ridx : Nat) (hb : ¬ ridx < last) : effLast last ridx = last := by
+  simp [effLast, hb]
+
+/-- After a reset (or on the very first round, or after a failed one: last = 0) no assumption on
+    what was replicated before is needed: every remote ModifyIndex is positive, so the
+    consistency clause is vacuous and the round is a full sync. -/
+theorem round_correct_full_sync (R : Rnd κ η) (last ridx : Nat) (l r : List (Item κ η))
+    (hb : ridx < last ∨ last = 0)
+    (law : Lawful R.cfg) (fl : FoldUnique R l) (fr : FoldUnique R r)
+    (cls : ∀ a ∈ l ++ r, ∀ b ∈ l ++ r, R.fold a.id = R.fold b.id →
+            R.cfg.skip a.id = R.cfg.skip b.id ∧ R.noRepl a.id = R.noRepl b.id)
+    (hash : ∀ y ∈ l, ∀ x ∈ r, y.id = x.id → R.cfg.same x.hash y.hash = true → y.val = x.val)
+    (hmod : ∀ x ∈ r, 0 < x.mod)
+    (k : κ) (hk : R.cfg.skip k = false) (hn : R.noRepl k = false) :
+    valOf (roundFinal R last ridx l r) k = valOf r k := by
+  have e : effLast last ridx = 0 := by
+    rcases hb with hb | hb
+    · simp [effLast, hb]
+    · subst hb; simp [effLast]
+  apply round_correct R last ridx l r _ k hk hn
+  rw [e]
+  exact ⟨law, fl, fr, cls, hash, fun y _ x hx _ hm => absurd hm (by have := hmod x hx; omega)⟩
+
+/-- The round returns the remote index it fetched; the replicator loop hands it to the next
+    round, or 0 after a failed round. -/
+theorem round_returns_remote_index (last ridx : Nat) :
+    roundRet last ridx = ridx ∧ nextLast false (roundRet last ridx) = ridx ∧
+      ∀ ret, nextLast true ret = 0 := ⟨rfl, rfl, fun _ => rfl⟩
+
+/-- The consistency assumption is re-established by the round itself: if every object of the next
+    remote list `r'` whose ModifyIndex is at most the returned index was already in the list `r`
+    this round synced to, the secondary's new state agrees with it — which is `RoundOK.cons` for
+    the next round at `last = ` the returned index. -/
+theorem round_reestablishes_consistency (R : Rnd κ η) (last ridx : Nat) (l r r' : List (Item κ η))
+    (h : RoundOK R (effLast last ridx) l r)
+    (hr' : ∀ x' ∈ r', x'.mod ≤ roundRet last ridx → x' ∈ r) :
+    ∀ y ∈ roundFinal R last ridx l r, ∀ x' ∈ r', y.id = x'.id → R.cfg.skip y.id = false →
+      R.noRepl y.id = false → x'.mod ≤ nextLast false (roundRet last ridx) → y.val = x'.val := by
+  intro y hy x' hx' e hs hn hm
+  have hxr : x' ∈ r := hr' x' hx' hm
+  have hfin := final_foldUnique R last ridx l r h
+  have e1 := valOf_mem R.cfg _ hfin.unique y hy hs
+  have e2 := valOf_mem R.cfg r h.fr.unique x' hxr (by rw [← e]; exact hs)
+  have e3 := round_correct R last ridx l r h y.id hs hn
+  rw [e1, e, e2] at e3
+  exact Option.some.inj e3
+
+/-! ### the two instances used by consul -/
 
 theorem aclCfg_lawful : Lawful aclCfg := by
   refine ⟨?_, ?_, ?_, ?_⟩ <;> simp only [aclCfg, bytesLt, decide_eq_true_eq, decide_eq_false_iff_not]
@@ -163,19 +308,75 @@ theorem cfgCfg_lawful : Lawful cfgCfg := by
     exact Prod.ext e1 e2
   · intro a b ha; simp at ha
 
-/-! ### non-vacuity: a concrete round that meets the hypotheses (IDs 1,2,3,4, one legacy
-    empty-ID token; `last = 5`; remote `2` unchanged since index 3, remote `1` changed at 8) -/
+/-- For ACL objects the folding never mixes the skipped (empty) ID with another one and nothing is
+    exempt from replication: `RoundOK.cls` holds for every pair of lists. -/
+theorem aclRnd_cls (a b : Bytes) (e : aclRnd.fold a = aclRnd.fold b) :
+    aclRnd.cfg.skip a = aclRnd.cfg.skip b ∧ aclRnd.noRepl a = aclRnd.noRepl b := by
+  refine ⟨?_, rfl⟩
+  simp only [aclRnd, aclCfg, lowerBytes] at *
+  cases a <;> cases b <;> simp_all
 
-def exL : List (Item Bytes Bytes) := [⟨[3], 0, [1], 10⟩, ⟨[], 0, [9], 99⟩, ⟨[1], 0, [5], 11⟩, ⟨[2], 0, [7], 12⟩]
-def exR : List (Item Bytes Bytes) := [⟨[4], 9, [2], 20⟩, ⟨[1], 8, [6], 21⟩, ⟨[2], 3, [7], 12⟩]
+theorem aclRnd_batches_positive : 0 < aclRnd.delBatch ∧ 0 < aclRnd.upsLimit ∧
+    0 < cfgRnd.delBatch ∧ 0 < cfgRnd.upsLimit := by decide
 
-theorem ex_round_ok : RoundOK aclCfg 5 exL exR :=
-  ⟨aclCfg_lawful, by unfold UniqueKeys; decide, by unfold UniqueKeys; decide, by decide, by decide⟩
+/-! ### why the order of the writes matters: a rename that only changes the letter case
 
-example : valOf (round aclCfg 5 exL exR) [1] = some 21 := by
-  rw [round_correct aclCfg 5 exL exR ex_round_ok [1] (by decide)]; decide
+    secondary: service-defaults "web" (content 7);  primary: service-defaults "Web" (content 7,
+    written at index 5). The walk compares names exactly: delete "web", upsert "Web". The store
+    keys both by "web". Deletions first (the code): the secondary ends with "Web". Upserts first
+    (the seeded change C19-2): the upsert replaces the row, the deletion then removes it. -/
 
--- executable sanity test (a test, not a theorem): the round as the driver computes it
-#guard (round aclCfg 5 exL exR).map (·.id) == [[], [2], [4], [1]]
+def sd : Bytes := [115, 100]                                         -- a kind
+def exWeb : List (Item CKey Nat) := [⟨(sd, [119, 101, 98]), 0, 11, 7, 1⟩]    -- "web"
+def exWEB : List (Item CKey Nat) := [⟨(sd, [87, 101, 98]), 5, 12, 7, 1⟩]     -- "Web"
+
+theorem ex_rename_ok : RoundOK cfgRnd (effLast 0 5) exWeb exWEB :=
+  ⟨cfgCfg_lawful, by unfold FoldUnique; decide, by unfold FoldUnique; decide, by decide, by decide, by decide⟩
+
+/-- the round as coded converges on the rename … -/
+theorem rename_by_case_converges :
+    valOf (roundFinal cfgRnd 0 5 exWeb exWEB) (sd, [87, 101, 98]) = some 7 ∧
+    valOf (roundFinal cfgRnd 0 5 exWeb exWEB) (sd, [119, 101, 98]) = none := by
+  constructor
+  · rw [round_correct cfgRnd 0 5 exWeb exWEB ex_rename_ok _ (by decide) (by decide)]; decide
+  · rw [round_correct cfgRnd 0 5 exWeb exWEB ex_rename_ok _ (by decide) (by decide)]; decide
+
+/-- … the opposite order does not: the statement of `round_correct` is FALSE for upserts-first. -/
+theorem swapped_order_counterexample :
+    RoundOK cfgRnd (effLast 0 5) exWeb exWEB ∧
+    valOf (roundFinalSwapped cfgRnd 0 5 exWeb exWEB) (sd, [87, 101, 98]) = none ∧
+    valOf exWEB (sd, [87, 101, 98]) = some 7 := by
+  refine ⟨ex_rename_ok, ?_, by decide⟩
+  rw [roundFinalSwapped_eq]
+  have hd : roundDels cfgRnd 0 5 exWeb exWEB = [(sd, [119, 101, 98])] := by
+    simp [roundDels, exWeb, exWEB, sortBy, insertBy, diff, effLast, cfgRnd, cfgCfg, ckeyLt, sd, exportedServices]
+  have hu : roundUps cfgRnd 0 5 exWeb exWEB = exWEB := by
+    simp [roundUps, exWeb, exWEB, sortBy, insertBy, diff, effLast, cfgRnd, cfgCfg, ckeyLt, sd, exportedServices]
+  rw [hd, hu]
+  decide
+
+/-! ### non-vacuity: a concrete ACL round that meets the hypotheses (IDs 1,2,3,4, one legacy
+    empty-ID token; `last = 5`, remote index 9; remote `2` unchanged since index 3, remote `1`
+    changed at 8) -/
+
+def exL : List (Item Bytes Bytes) :=
+  [⟨[3], 0, [1], 10, 1⟩, ⟨[], 0, [9], 99, 1⟩, ⟨[1], 0, [5], 11, 1⟩, ⟨[2], 0, [7], 12, 1⟩]
+def exR : List (Item Bytes Bytes) := [⟨[4], 9, [2], 20, 1⟩, ⟨[1], 8, [6], 21, 1⟩, ⟨[2], 3, [7], 12, 1⟩]
+
+theorem ex_round_ok : RoundOK aclRnd (effLast 5 9) exL exR :=
+  ⟨aclCfg_lawful, by unfold FoldUnique; decide, by unfold FoldUnique; decide,
+   fun a _ b _ e => aclRnd_cls a.id b.id e, by decide, by decide⟩
+
+example : valOf (roundFinal aclRnd 5 9 exL exR) [1] = some 21 := by
+  rw [round_correct aclRnd 5 9 exL exR ex_round_ok [1] (by decide) (by decide)]; decide
+
+-- executable sanity tests (tests, not theorems): the rounds as the driver computes them
+#guard (roundFinal aclRnd 5 9 exL exR).map (·.id) == [[], [2], [1], [4]]
+#guard (roundFinal cfgRnd 0 5 exWeb exWEB).map (·.id) == [(sd, [87, 101, 98])]
+#guard (roundFinalSwapped cfgRnd 0 5 exWeb exWEB).map (·.id) == []
+#guard (roundOps aclRnd 5 9 exL exR).length == 2
+#guard (roundOps aclRnd 20 9 exL exR).length == 2   -- reset: [2] (hash equal) still not upserted
+#guard batches 3 (fun (_ : Nat) => 1) [1, 2, 3, 4, 5, 6, 7] == [[1, 2, 3], [4, 5, 6], [7]]
+#guard batches 10 id [4, 4, 4, 4, 20, 1] == [[4, 4, 4], [4, 20], [1]]
 
 end CV.Repl
